@@ -66,6 +66,12 @@ CHECKS = {
         text="Random constant expressions (all integer types, arithmetic, bitwise, shifts, casts, forward/backward references, size-of) are printed as `const` and as local `var` and compared with each other and with the reference interpreter; arrays `[N]T` for N = 0..8 from several constant expressions are observed through |a|, view, slice pointer, second-level calls and `&[N]T`, with |:[N]T| = N*|:T|; |:T| is compared with the measured stride between consecutive members of type T; oversized words must raise E380.",
         note="Ground truth for layout is measured (addresses printed by the running program), not modelled. Undersized words are recorded, not judged (the property only names words larger than declared).",
         design="5 C10"),
+    "C11": dict(
+        category="exploration",
+        technique="runtime monitor: metamorphic permutation of top-level declarations, random dependency graphs with predicted values, and verdict tables for duplicates and type x position rules",
+        text="Generated programs (valid and with one injected semantic fault) are compiled in 7 declaration orders and must give the same verdict, code set and output; random dependency graphs over constants and structures must be accepted with the predicted values when acyclic and rejected with E413/E415/E416 when a cycle is closed; duplicate functions/constants/structures/parameters/members in every order and distance must raise E421/E423-E426; a table of types in declaration positions checks E350-E359, E380, E433.",
+        note="Lexical/syntactic faults are excluded from the permutation monitor (they blur declaration boundaries). For ill-formed types any code of the E350-E359 family counts, as the property groups them.",
+        design="5 C11"),
 }
 
 
